@@ -24,6 +24,8 @@ def owner_of(f):
         return "C03"
     if f["stage"] == "search":
         return "C13"
+    if f["stage"] in ("xcopy", "copy_returned") or f["action"] == "Copy":
+        return "C20"
     if f["stage"] == "name_still_free":
         return "C12"
     out = f["out"]
